@@ -13,6 +13,7 @@ mod report;
 mod rnd;
 mod rt;
 mod proxy;
+mod refpeer;
 mod scen_c08;
 mod scen_c14;
 mod scen_c15;
@@ -20,6 +21,7 @@ mod scen_c16;
 mod scen_link;
 mod scen_local;
 mod scen_pw;
+mod scen_ref;
 mod scen_tcp;
 mod scen_udp;
 
@@ -33,6 +35,7 @@ fn generate(prop: &str, seed: u64, thorough: bool) -> Option<Plan> {
     match prop {
         "C01" => Some(scen_tcp::gen_c01(seed, thorough)),
         "C02" => Some(scen_udp::gen_c02(seed, thorough)),
+        "C03" => Some(scen_ref::gen_c03(seed, thorough)),
         "C04" => Some(scen_link::gen_c04(seed, thorough)),
         "C05" => Some(scen_link::gen_c05(seed, thorough)),
         "C08" => Some(scen_c08::gen_c08(seed, thorough)),
@@ -58,6 +61,7 @@ fn execute(plan: &Plan) -> Outcome {
         "pw-model" => scen_pw::execute_pw(plan),
         "config-names" => scen_c16::execute_c16(plan),
         "addresses" => scen_c14::execute_c14(plan),
+        "interop" => scen_ref::execute_c03(plan),
         other => {
             eprintln!("unknown scenario {other}");
             std::process::exit(2);
